@@ -79,5 +79,14 @@ func runC02(r *Run) {
 	r.RunTaskGroup("maps of 5 000 small / 2 500 limit-sized entries: build, probe, reopen, drain to empty", "bigtree", bigTreeArgs("map-tiny", "map-lim"))
 	// one collision group grown to 258 keys (shared first digest / first two digests / all digests) under the default
 	// collision limit: dictionary semantics throughout, incl. the one refusal the limit prescribes
+	// a copy is a container of its own: after a copy, every operation on either side leaves the other side a correct
+	// dictionary (copies must not share any mutable storage with their source)
+	{
+		var cargs []any
+		for sh := 0; sh < 16; sh++ {
+			cargs = append(cargs, c17Arg{T: 256, Mode: "copy", Shard: sh, Shards: 16})
+		}
+		r.RunTaskGroup("copied single-slab containers: either side mutated, the other side judged", "c17", cargs)
+	}
 	r.RunTaskGroup("one collision group grown to 258 keys at the default limit", "colldeep", collDeepArgs())
 }
